@@ -3746,7 +3746,7 @@ type enterBlock struct {
 }
 
 func (e *enterBlock) exec(vm *vm) {
-	if e.stashSize > 0 {
+	if e.stashSize > 0 || e.names != nil {
 		vm.newStash()
 		vm.stash.values = make([]Value, e.stashSize)
 		if len(e.names) > 0 {
